@@ -1145,8 +1145,8 @@ func (e *Engine) Describe(prop string) core.Description {
 	case "C04":
 		d.Rule = base + "At EVERY provider request: the requested register / every requested byte has never been known to the emulator (pre-known, program image, written by program or operator, supplied before) and has never been requested before; values supplied are checked again by the step-report oracle at every later read. Non-trivial = at least one step; distinct = distinct event-log hashes."
 	}
-	d.ComponentsReal = []string{"elf loader, parser.Parse, riscv lifter (RV64IMA), deps.NewCode", "emulator.New/Step/MustIP, evaluation report", "state.State, RegMap", "memory.Overlay(Bytes, Sparse)", "exprtransform.ConstFold / expreval"}
-	d.ComponentsStub = []string{"memory layering of cmd/mltwist/main.go runIU replicated (Overlay(Bytes(program segments), Sparse))"}
+	d.ComponentsReal = []string{"elf loader, parser.Parse, riscv lifter (RV64IMA), deps.NewCode", "emulator.New/Step/MustIP, evaluation report", "state.State, RegMap", "memory.Overlay(Bytes, Sparse)", "exprtransform.ConstFold / expreval", "the real mltwist binary on a pty (tool-tier runs, 1 in 250: consecutive emulations of one run)"}
+	d.ComponentsStub = []string{"memory layering of cmd/mltwist/main.go runIU replicated (Overlay(Bytes(program segments), Sparse)) in the in-process runs; the tool-tier runs execute the real wiring"}
 	d.Assumptions = []string{
 		"rvref (independent RV64IMA+Zicsr interpreter written from the unprivileged specification, with the tool's documented approximations) is the trusted reference",
 		"programs do not modify their own code (runs that would are cut short and counted)",
